@@ -33,6 +33,23 @@ PTY_AUX = ['isatty', 'getecho', 'setecho', 'getwinsize', 'setwinsize', 'sendcont
 FD_AUX = ['isatty', 'sendline', 'readline', 'fileno', 'flush']
 
 
+class ClosableLog(object):
+    """A log file object the application may close before it closes the spawn object (`with open(...) as log:`)."""
+
+    def __init__(self):
+        self.closed = False
+        self.n = 0
+
+    def write(self, s):
+        if self.closed:
+            raise ValueError('I/O operation on closed file.')
+        self.n += 1
+
+    def flush(self):
+        if self.closed:
+            raise ValueError('I/O operation on closed file.')
+
+
 class Decoy(OpenFile):
     kind = 'decoy'
 
@@ -113,6 +130,10 @@ def generate(rng):
     if os.environ.get('SIMPEX_TIER') == 'thorough' and rng.random() < 0.4:
         nops = rng.randint(6, 16)
     ops = gen_ops(rng, tr, nops)
+    if tr != 'popen' and rng.random() < 0.2:
+        scn['log'] = rng.choice(['logfile', 'logfile', 'logfile_read', 'logfile_send'])
+        if rng.random() < 0.7:
+            ops.insert(rng.randint(0, len(ops)), {'op': 'closelog'})
     scn['ops'] = ops
     if tr == 'pty' and scn['disp'] == 'mid_exit':
         scn['exit_at'] = [rng.randrange(nops), rng.randint(1, 8)]
@@ -289,6 +310,12 @@ def run(scn, prop=None):
             main_of = a
         state['child'] = child
         r.child = child
+        the_log = None
+        if scn.get('log'):
+            if scn['log'] not in ('logfile', 'logfile_read', 'logfile_send') or tr == 'popen':
+                raise HarnessError('bad log attribute in scenario')
+            the_log = ClosableLog()
+            setattr(child, scn['log'], the_log)
         child.delayafterclose = scn.get('delayafterclose', child.delayafterclose)
         first_fd = child.child_fd
         observed = None        # (exitstatus, signalstatus, status) first seen after death was observed
@@ -364,6 +391,12 @@ def run(scn, prop=None):
                     res['ret'] = child.sendline(b'x' if child.encoding is None else u'x')
                 elif o == 'rnb':
                     res['ret'] = child.read_nonblocking(10, 0.01)
+                elif o == 'closelog':
+                    # the application is done with its log file; the spawn object still refers to it
+                    if the_log is None:
+                        raise HarnessError('closelog without a log')
+                    the_log.closed = True
+                    w.probe('log_file_closed_before_the_spawn_object')
                 elif o in ('isatty', 'getecho', 'getwinsize', 'fileno', 'flush', 'eof'):
                     res['ret'] = getattr(child, o)()
                 elif o == 'setecho':
